@@ -4,6 +4,11 @@ go 1.23
 
 toolchain go1.23.5
 
+// goose's own go.mod says go 1.22: build everything (test binaries and the goose/test_gen
+// binaries built from this module) with Go 1.22's GODEBUG defaults (gotypesalias=0, asynctimerchan=1, …)
+// so that the code under test behaves as it does when built from its own module.
+godebug default=go1.22
+
 require (
 	github.com/anishathalye/porcupine v1.3.0
 	github.com/goose-lang/goose v0.0.0
